@@ -1,5 +1,5 @@
 SPECIFICATION MCSpec
-CONSTANT Params <- ElfParamsSet
+CONSTANT Params <- ElfParamsAll
 CONSTANT MkCase <- ElfCase
 CONSTANT MaxN = 3
 CONSTANT ElfSizes = {0, 8, 39, 40, 41, 64, 72}
